@@ -168,7 +168,7 @@ def site():
 def test_a():
     try:
         R.append(("ok", {cmp1}))
-        G[0] = {second}
+        {mut}
         R.append(("ok", {cmp2}))
     except BaseException as e:
         R.append(("exc", type(e).__name__))
@@ -186,7 +186,14 @@ def reeval_cases():
                 continue
             if ("<=" in c1 and not b.isdigit() and b != "'a'"):
                 continue
-            out.append({"first": a, "second": b, "cmp1": c1.format(v=a), "cmp2": c2.format(v=b)})
+            out.append({"first": a, "second": b, "cmp1": c1.format(v=a), "cmp2": c2.format(v=b), "mut": f"G[0] = {b}"})
+    # the name keeps its object, the object is modified in place between the evaluations (the argument is the very same object again)
+    for a, mut, b in (("[1]", "G[0].append(2)", "[1, 2]"), ("[1, 2]", "G[0][1] = 3", "[1, 3]"), ("{'a': 1}", "G[0]['a'] = 2", "{'a': 2}"),
+                      ("{'a': 1}", "G[0]['b'] = 2", "{'a': 1, 'b': 2}"), ("[[1]]", "G[0][0].append(2)", "[[1, 2]]"), ("[1, [2, {'k': 3}]]", "G[0][1][1]['k'] = 4", "[1, [2, {'k': 4}]]"),
+                      ("[1]", "G[0].append(2); G[0].pop()", "[1]"), ("{'a': [1]}", "G[0]['a'] = [1]", "{'a': [1]}")):
+        out.append({"first": a, "second": b, "cmp1": f"{a} == site()", "cmp2": f"{b} == site()", "mut": mut})
+        if a.startswith("["):
+            out.append({"first": a, "second": b, "cmp1": "3 in site()", "cmp2": "3 in site()", "mut": mut})
     return out
 
 
@@ -287,6 +294,43 @@ def run_collected(item):
     return out
 
 
+# several files in one session: a wide replacement in one file (a long string that is fixed) and call sites at the same line / column / character offsets in
+# another file - every site keeps its own state and its own changes
+LONG_OLD = "".join(f"row {i:03d}: value {i * 7}\\n" for i in range(60))
+MULTI_A = 'from inline_snapshot import snapshot\n\n\ndef test_report():\n    assert "new report" == snapshot("' + LONG_OLD + '")\n'
+MULTI_B = """from inline_snapshot import snapshot
+
+
+def test_numbers():
+    for v in (3, 9, 4):
+        assert v <= snapshot(5)
+    for v in (1, 2):
+        assert v in snapshot([1, 7])
+    s = snapshot({"a": 1})
+    assert s["a"] == 2
+    assert s["b"] == 5
+    assert 7 == snapshot()
+    assert "ab" == snapshot("zz")
+"""
+MULTI_WANT = {("create", "fix", "trim", "update"): [9, [1, 2], {"a": 2, "b": 5}, 7, "ab"], ("fix",): [9, [1, 7, 2], {"a": 2}, None, "ab"], ("create", "fix"): [9, [1, 7, 2], {"a": 2, "b": 5}, 7, "ab"],
+              ("fix", "trim"): [9, [1, 2], {"a": 2}, None, "ab"]}
+
+
+def run_multi(flags):
+    out = {}
+    for order in (("test_a_report.py", "test_b_numbers.py"), ("test_z_report.py", "test_b_numbers.py")):
+        res = driver.run_inproc({order[0]: MULTI_A, order[1]: MULTI_B}, flags)
+        after = res["files"][order[1]].decode()
+        got = []
+        try:
+            for c in snapshot_calls(after):
+                got.append(eval(compile(ast.Expression(c.args[0]), "<a>", "eval"), {}) if c.args else None)
+        except Exception as e:  # noqa
+            got = f"{type(e).__name__}: {e}"
+        out[order[0]] = {"got": got, "session_exc": res["session_exc"], "report": res["files"][order[0]].decode()[-60:]}
+    return out
+
+
 def run_reeval(case):
     if case.get("fstring"):
         src = REEVAL_F.format(**{k: v for k, v in case.items() if k != "fstring"})
@@ -342,6 +386,13 @@ def run(ctx: Ctx):
             ctx.report(f"sub-snapshots fetched before they are compared: with {it[1]} the snapshot holds {o['got']}, the aggregate of all comparisons is {it[2]} "
                        f"(tests {o['tests']}, session {o['session_exc']})", {"kind": "collected", "body": it[0], "flags": list(it[1])})
     ctx.coverage["oracle"]["collected_subsnapshot_cases"] = len(COLLECTED)
+    for fl, o in zip(MULTI_WANT, pmap(run_multi, list(MULTI_WANT), chunksize=1)):
+        ctx.count(("multi-file", fl), True)
+        for name, r in o.items():
+            if r["session_exc"] or r["got"] != MULTI_WANT[fl] or 'snapshot("new report")' not in r["report"]:
+                ctx.report(f"two files in one session ({name} holds a wide replacement): with {fl} the sites of test_b_numbers.py hold {r['got']}, their own observations give {MULTI_WANT[fl]} "
+                           f"(session {r['session_exc']}, report file ends with {r['report']!r})", {"kind": "multi", "flags": list(fl)})
+    ctx.coverage["oracle"]["multi_file_cases"] = 2 * len(MULTI_WANT)
     rc = reeval_cases() + reeval_fstring_cases()
     for c, o in zip(rc, pmap(run_reeval, rc)):
         ctx.count(("reeval", repr(c)), True)
@@ -401,6 +452,11 @@ def replay(ctx: Ctx, data):
         o = run_dynamic(case["body"])
         print(o)
         return not o["session_exc"] and bool(o["R"]) and all(r is True for r in o["R"])
+    if case.get("kind") == "multi":
+        fl = tuple(case["flags"])
+        o = run_multi(fl)
+        print(o)
+        return all(not r["session_exc"] and r["got"] == MULTI_WANT[fl] for r in o.values())
     if case.get("kind") == "reeval":
         o = run_reeval(case["case"])
         print(o["R"])
